@@ -414,7 +414,8 @@ def run(P, rep, tier):
             if name is None:
                 continue
             r = strip(rhs)
-            from_ref = (r[0] == 'c' and callee_name(r) == 'get_ref_frame_buf') or (r[0] == 'i' and last_field(strip(r[1])) in REFSRC)
+            from_ref = (r[0] == 'c' and callee_name(r) in ('get_ref_frame_buf', 'get_primary_ref_frame_buf')) or (r[0] == 'i' and last_field(strip(r[1])) in REFSRC) or \
+                (r[0] == 'm' and r[1] == 'EbDecHandle.prev_frame')        # the primary reference: NULL when the header says 'none'
             if from_ref:
                 key = name if isinstance(name, str) else pstr(name)
                 refl[key] = ev
@@ -428,6 +429,19 @@ def run(P, rep, tier):
             de = d.get('e')
             src = strip(de if d['k'] == 'decl' else de[3])
             texts = [key, pstr(src)]
+            # a conditional expression  key != NULL ? key->member : other  guards the dereference in its true arm
+            e0 = ev.get('e')
+            if e0 is not None:
+                for q in subexprs(e0):
+                    if q[0] != 'q':
+                        continue
+                    c0 = pstr(strip(q[1]))
+                    pos = key in c0 and ('!= 0' in c0 or '!= NULL' in c0 or c0.strip('()') == key)
+                    neg = key in c0 and ('== 0' in c0 or '== NULL' in c0 or c0.startswith('!'))
+                    arm = q[2] if pos and not neg else (q[3] if neg else None)
+                    other = q[3] if pos and not neg else (q[2] if neg else None)
+                    if arm is not None and (key + '->') in pstr(strip(arm)) and (key + '->') not in pstr(strip(other)):
+                        return True
             if src[0] == 'c':
                 texts.append('get_ref_frame_buf(')
             for t in texts[1:]:
@@ -592,7 +606,7 @@ def run_header_guards(P, rep):
             if txt == '0':
                 ne += 1
                 ok = any(l <= ev.get('l', 0) <= l + 2 for ev in f.events(('ret',), reachable=False))
-                rep.ob('C10.ASSERTEXIT', '%s@%d' % (f.name, l), ok, '%s:%d' % (fl.replace('/repo/', ''), l),
+                rep.ob('C10.ASSERTEXIT', '%s#%d' % (f.name, sum(1 for (l2, c2, n2, a2) in P.macros[fl] if n2 == 'assert' and a2 and a2[0].strip() == '0' and l2 <= l and _host(fns, spans, l2) is f)), ok, '%s:%d' % (fl.replace('/repo/', ''), l),
                        'assert(0) is followed by an error return' if ok else
                        ('%s detects a stream error at line %d and only asserts: a release build carries on with the header it has just found to be corrupt' % (f.name, l)))
                 continue
@@ -651,7 +665,7 @@ def run_header_guards(P, rep):
                 return got[0] if all(x is not None for x in got) else None
             g = _tested_after(f, l - 1)
             real = g
-            rep.ob('C10.ASSERTBOUND', '%s/%s@%d' % (f.name, xid, l), real is not None, '%s:%d' % (fl.replace('/repo/', ''), l),
+            rep.ob('C10.ASSERTBOUND', '%s/%s:%s' % (f.name, xid, _re.sub(r'\s+', '', txt)[:40]), real is not None, '%s:%d' % (fl.replace('/repo/', ''), l),
                    ('%s is read from the bit stream; its bound (%s) is also enforced by a real test with an error exit in %s (on every call path)' % (xid, txt[:50], g.name)) if real is not None else
                    ('%s is read from the bit stream in %s and bounded only by assert(%s): with NDEBUG nothing enforces it, and the value goes on to size or index decoder storage' % (xid, f.name, txt[:60])))
     if ne < 1 or nb < 2:
